@@ -505,64 +505,76 @@ func ruleWALenCnt(c *Ctx) {
 		if !ct.Declared["Write"] {
 			continue
 		}
-		fn := ct.M["Write"]
 		n := 0
-		for _, b := range fn.Blocks {
-			var lastVarint *ssa.Call
-			for _, in := range b.Instrs {
-				// the same two steps written directly on the buffer: buf = binary.AppendVarint(buf, n); buf = append(buf, x...)
-				if st, isSt := in.(*ssa.Store); isSt {
-					if fa, isFA := st.Addr.(*ssa.FieldAddr); isFA && isWriteBufPtr(fa.X.Type()) {
-						if dc, isCall := st.Val.(*ssa.Call); isCall {
-							if sc := dc.Call.StaticCallee(); sc != nil && qualName(sc) == "encoding/binary.AppendVarint" {
-								lastVarint = dc
-							} else if isBuiltinCall(dc, "append") && len(dc.Call.Args) == 2 {
-								payload := dc.Call.Args[1]
-								if _, isSl := payload.(*ssa.Slice); !isSl {
-									n++
-									key := fmt.Sprintf("%s.Write/len-prefix#%d", ct.Name, n)
-									src := stripConv(payload)
-									ok2 := false
-									if lastVarint != nil {
-										if lc, isLc := stripConv(lastVarint.Call.Args[1]).(*ssa.Call); isLc && isBuiltinCall(lc, "len") && (lc.Call.Args[0] == src || lc.Call.Args[0] == payload) {
-											ok2 = true
+		// the Write method, and the write-buffer helpers it calls (a shared "length then bytes" helper)
+		fns := []*ssa.Function{ct.M["Write"]}
+		for _, cs := range callsIn(ct.M["Write"]) {
+			if g := cs.Static; g != nil && P.isModuleFunc(g) && g.Blocks != nil && g.Signature.Recv() != nil && isWriteBufPtr(g.Signature.Recv().Type()) {
+				switch qualNameShort(g) {
+				case "(*WriteBuf).Varint", "(*WriteBuf).Write", "(*WriteBuf).Byte":
+				default:
+					fns = append(fns, g)
+				}
+			}
+		}
+		for _, fn := range fns {
+			for _, b := range fn.Blocks {
+				var lastVarint *ssa.Call
+				for _, in := range b.Instrs {
+					// the same two steps written directly on the buffer: buf = binary.AppendVarint(buf, n); buf = append(buf, x...)
+					if st, isSt := in.(*ssa.Store); isSt {
+						if fa, isFA := st.Addr.(*ssa.FieldAddr); isFA && isWriteBufPtr(fa.X.Type()) {
+							if dc, isCall := st.Val.(*ssa.Call); isCall {
+								if sc := dc.Call.StaticCallee(); sc != nil && qualName(sc) == "encoding/binary.AppendVarint" {
+									lastVarint = dc
+								} else if isBuiltinCall(dc, "append") && len(dc.Call.Args) == 2 {
+									payload := dc.Call.Args[1]
+									if _, isSl := payload.(*ssa.Slice); !isSl {
+										n++
+										key := fmt.Sprintf("%s.Write/len-prefix#%d", ct.Name, n)
+										src := stripConv(payload)
+										ok2 := false
+										if lastVarint != nil {
+											if lc, isLc := stripConv(lastVarint.Call.Args[1]).(*ssa.Call); isLc && isBuiltinCall(lc, "len") && (lc.Call.Args[0] == src || lc.Call.Args[0] == payload) {
+												ok2 = true
+											}
 										}
+										c.Check(ok2, key, P.pos(st.Pos()), "the varint of len(x) immediately precedes the bytes of the same x", "the payload written is not preceded by its own length")
 									}
-									c.Check(ok2, key, P.pos(st.Pos()), "the varint of len(x) immediately precedes the bytes of the same x", "the payload written is not preceded by its own length")
 								}
 							}
 						}
-					}
-					continue
-				}
-				call, ok := in.(*ssa.Call)
-				if !ok || call.Call.StaticCallee() == nil {
-					continue
-				}
-				switch qualNameShort(call.Call.StaticCallee()) {
-				case "(*WriteBuf).Varint":
-					lastVarint = call
-				case "(*WriteBuf).Write":
-					payload := call.Call.Args[1]
-					if _, isSliceCall := payload.(*ssa.Call); isSliceCall {
-						continue // unsafe.Slice of fixed size: no prefix
-					}
-					if sl, ok := payload.(*ssa.Slice); ok {
-						_ = sl
 						continue
 					}
-					n++
-					key := fmt.Sprintf("%s.Write/len-prefix#%d", ct.Name, n)
-					src := stripConv(payload) // []byte(s) -> s
-					ok2 := false
-					if lastVarint != nil {
-						if lc, isCall := stripConv(lastVarint.Call.Args[1]).(*ssa.Call); isCall {
-							if bi, isB := lc.Call.Value.(*ssa.Builtin); isB && bi.Name() == "len" && (lc.Call.Args[0] == src || lc.Call.Args[0] == payload) {
-								ok2 = true
+					call, ok := in.(*ssa.Call)
+					if !ok || call.Call.StaticCallee() == nil {
+						continue
+					}
+					switch qualNameShort(call.Call.StaticCallee()) {
+					case "(*WriteBuf).Varint":
+						lastVarint = call
+					case "(*WriteBuf).Write":
+						payload := call.Call.Args[1]
+						if _, isSliceCall := payload.(*ssa.Call); isSliceCall {
+							continue // unsafe.Slice of fixed size: no prefix
+						}
+						if sl, ok := payload.(*ssa.Slice); ok {
+							_ = sl
+							continue
+						}
+						n++
+						key := fmt.Sprintf("%s.Write/len-prefix#%d", ct.Name, n)
+						src := stripConv(payload) // []byte(s) -> s
+						ok2 := false
+						if lastVarint != nil {
+							if lc, isCall := stripConv(lastVarint.Call.Args[1]).(*ssa.Call); isCall {
+								if bi, isB := lc.Call.Value.(*ssa.Builtin); isB && bi.Name() == "len" && (lc.Call.Args[0] == src || lc.Call.Args[0] == payload) {
+									ok2 = true
+								}
 							}
 						}
+						c.Check(ok2, key, P.pos(call.Pos()), "w.Varint(int64(len(x))) immediately precedes w.Write(x) for the same x", "the payload written is not preceded by its own length")
 					}
-					c.Check(ok2, key, P.pos(call.Pos()), "w.Varint(int64(len(x))) immediately precedes w.Write(x) for the same x", "the payload written is not preceded by its own length")
 				}
 			}
 		}
@@ -645,6 +657,14 @@ func ruleWASel(c *Ctx) {
 		fn := ct.M["Write"]
 		key := ct.Name + ".Write/selector"
 		pos := P.pos(fn.Pos())
+		if probs, folded := selectorByFold(P, ct, fn); folded {
+			if len(probs) > 0 {
+				c.Bad(key, pos, strings.Join(probs, "; "))
+			} else {
+				c.OK(key, pos, "Write folded for nonNull = 0 and 1: Omit(p) true -> selector 1-nonNull and nothing else; false -> selector nonNull, then exactly one branch write of the same pointer")
+			}
+			continue
+		}
 		paths, ok := enumeratePaths(fn)
 		if !ok {
 			c.Unk(key, pos, "path budget exceeded")
@@ -865,8 +885,12 @@ func ruleBTNonNull(c *Ctx) {
 	sites := 0
 	seen := map[string]bool{}
 	_ = nnPath
+	// first choice: fold the builders for the two placements of null (E-CP); the functions folded through
+	// are decided by that and not read a second time below
+	covered, nFold := nonNullByFold(c, bt)
+	sites += nFold
 	for _, ub := range bt.Builders {
-		if ub.Fn.Pkg != P.Avro {
+		if ub.Fn.Pkg != P.Avro || covered[ub.Fn] {
 			continue
 		}
 		for _, p := range ub.Paths {
@@ -1107,4 +1131,267 @@ func derivesFromReadByteD(v ssa.Value, depth int) bool {
 		}
 	}
 	return false
+}
+
+// nonNullByFold folds every builder with the standard signature for a
+// two-branch union with null first and with null second. Where the fold ends
+// in a codec with a value-branch index, that index must be the position of
+// the non-null branch and the sub-codec must be what the sub-builder returned
+// for that very branch's schema. Returns the functions so decided and the
+// number of constructions judged.
+func nonNullByFold(c *Ctx, bt *btEnv) (map[*ssa.Function]bool, int) {
+	P := c.P
+	covered := map[*ssa.Function]bool{}
+	n := 0
+	schemaNT := P.NamedType(P.Avro, "Schema")
+	if schemaNT == nil {
+		return covered, 0
+	}
+	schemaT := types.Type(schemaNT)
+	stdSig := func(fn *ssa.Function) bool {
+		if !isCodecErrorSig(P, fn.Signature) || len(fn.Params) != 3 {
+			return false
+		}
+		return types.Identical(fn.Params[0].Type(), schemaT) && isReflectType(fn.Params[1].Type())
+	}
+	mk := func(types_ ...string) cpVal {
+		sl := cpSlice{Elems: nil}
+		for _, t := range types_ {
+			sl.Elems = append(sl.Elems, &cpCell{V: cpStructOf(schemaT, map[string]cpVal{"Type": cpStr{t}}), T: schemaT})
+		}
+		return cpStructOf(schemaT, map[string]cpVal{"Type": cpStr{"union"}, "Union": sl})
+	}
+	const marker = "x-value-branch"
+	type kase struct {
+		name string
+		in   cpVal
+		want int64
+	}
+	for _, ub := range bt.Builders {
+		fn := ub.Fn
+		if fn.Pkg != P.Avro || !stdSig(fn) {
+			continue
+		}
+		type verdict struct {
+			key, pos, good, bad string
+			ok                bool
+		}
+		var vs []verdict
+		var vis []map[*ssa.Function]bool
+		failed := false
+		for _, k := range []kase{{"null-first", mk("null", marker), 1}, {"null-second", mk(marker, "null"), 0}} {
+			outs, visited, ok, _ := cpFoldOpt(P, fn, []cpVal{k.in, cpUnk{ID: "arg:typ"}, cpUnk{ID: "arg:omit"}}, func(g *ssa.Function) bool { return g != fn && stdSig(g) })
+			if !ok {
+				failed = true
+				break
+			}
+			vis = append(vis, visited)
+			for _, o := range outs {
+				if o.Panics || len(o.Results) != 2 {
+					continue
+				}
+				if _, isNil := o.Results[1].(cpNil); !isNil {
+					continue
+				}
+				iv, isI := o.Results[0].(cpIface)
+				if !isI {
+					continue
+				}
+				T := iv.T
+				val := iv.V
+				if pt, isP := T.Underlying().(*types.Pointer); isP {
+					T = pt.Elem()
+					pp, isPtr := val.(cpPtr)
+					if !isPtr || pp.C == nil {
+						continue
+					}
+					val = pp.C.V
+				}
+				nnName := nonNullFieldOf(P, T)
+				if nnName == "" {
+					continue
+				}
+				subName := subCodecFieldOf(P, T)
+				key := fmt.Sprintf("%s/return[%s]/%s", fnKey(fn), typeKey(T), k.name)
+				nv, _ := cpFieldByName(val, nnName)
+				got := int64(0)
+				if nv != nil {
+					gi, isInt := nv.(cpInt)
+					if !isInt {
+						vs = append(vs, verdict{key: key, pos: P.pos(fn.Pos()), bad: "the value branch's index does not fold to a constant for a union with " + k.name})
+						continue
+					}
+					got = gi.V
+				}
+				// the sub-codec: the (possibly asserted) result of a sub-builder call on the value branch's schema
+				sv, _ := cpFieldByName(val, subName)
+				from := ""
+				if su, isU := sv.(cpUnk); isU {
+					for _, cl := range o.Calls {
+						tup, isT := cl.Result.(cpTuple)
+						if !isT || len(tup.Vs) == 0 {
+							continue
+						}
+						ru, isRU := tup.Vs[0].(cpUnk)
+						if !isRU || !(su.ID == ru.ID || strings.HasPrefix(su.ID, ru.ID+"/")) {
+							continue
+						}
+						for _, a := range cl.Args {
+							if as, isS := a.(cpStruct); isS && types.Identical(as.T, schemaT) {
+								if tv, _ := cpFieldByName(as, "Type"); tv != nil {
+									if ts, isStr := tv.(cpStr); isStr {
+										from = ts.V
+									}
+								}
+							}
+						}
+					}
+				}
+				switch {
+				case got != k.want:
+					vs = append(vs, verdict{key: key, pos: P.pos(fn.Pos()), bad: fmt.Sprintf("for a union with %s the value branch's index is %d, it must be %d", k.name, got, k.want)})
+				case from != marker:
+					vs = append(vs, verdict{key: key, pos: P.pos(fn.Pos()), bad: fmt.Sprintf("for a union with %s the branch codec is not what the sub-builder returned for the non-null branch's schema (it was built from %q)", k.name, from)})
+				default:
+					vs = append(vs, verdict{key: key, pos: P.pos(fn.Pos()), ok: true, good: fmt.Sprintf("%s: nonNull = %d and the branch codec is built from that branch's schema (the builder folded for that union)", k.name, got)})
+				}
+			}
+		}
+		if failed || len(vs) == 0 {
+			continue
+		}
+		seen := map[string]bool{}
+		for _, v := range vs {
+			if v.ok && seen[v.key] {
+				continue
+			}
+			seen[v.key] = true
+			n++
+			c.Check(v.ok, v.key, v.pos, v.good, v.bad)
+		}
+		for _, m := range vis {
+			for g := range m {
+				covered[g] = true
+			}
+		}
+	}
+	return covered, n
+}
+
+// selectorByFold decides WA-SEL for one nullable-union codec by folding its
+// Write (E-CP) for both values of the value-branch index, with the sub-codec
+// and the arguments unknown and the write buffer's methods kept as calls.
+func selectorByFold(P *Program, ct *CodecType, fn *ssa.Function) (problems []string, folded bool) {
+	nnName, subName := nonNullFieldOf(P, ct.T), subCodecFieldOf(P, ct.T)
+	if nnName == "" || subName == "" || fn == nil || len(fn.Params) != 3 {
+		return nil, false
+	}
+	opaque := func(g *ssa.Function) bool {
+		return g.Signature.Recv() != nil && isWriteBufPtr(g.Signature.Recv().Type())
+	}
+	seen := map[string]bool{}
+	add := func(s string) {
+		if !seen[s] {
+			seen[s] = true
+			problems = append(problems, s)
+		}
+	}
+	isSub := func(v cpVal) bool {
+		u, ok := v.(cpUnk)
+		return ok && (u.ID == "sub" || strings.HasPrefix(u.ID, "sub/"))
+	}
+	isP := func(v cpVal) bool {
+		u, ok := v.(cpUnk)
+		return ok && u.ID == "arg:p"
+	}
+	nOmit, nVal := 0, 0
+	for nn := int64(0); nn <= 1; nn++ {
+		var recv cpVal = cpStructOf(ct.T, map[string]cpVal{nnName: cpInt{nn}, subName: cpUnk{ID: "sub"}})
+		if _, isPtr := fn.Params[0].Type().Underlying().(*types.Pointer); isPtr {
+			recv = cpPtrTo(recv, ct.T)
+		}
+		outs, _, ok, _ := cpFoldOpt(P, fn, []cpVal{recv, cpUnk{ID: "arg:w"}, cpUnk{ID: "arg:p"}}, opaque)
+		if !ok {
+			return nil, false
+		}
+		for _, o := range outs {
+			if o.Panics {
+				continue
+			}
+			var omit *cpCall
+			nOmitCalls := 0
+			var sels []cpVal
+			subWrites, order := 0, true
+			for i := range o.Calls {
+				cl := &o.Calls[i]
+				switch {
+				case (strings.HasSuffix(cl.Callee, ").Omit") || cl.Callee == "invoke:Omit") && len(cl.Args) >= 2 && isSub(cl.Args[0]):
+					omit = cl
+					nOmitCalls++
+					if !isP(cl.Args[len(cl.Args)-1]) {
+						add("Omit is asked about a different pointer than the one written")
+					}
+				case strings.HasSuffix(cl.Callee, "WriteBuf).Varint") && len(cl.Args) == 2:
+					sels = append(sels, cl.Args[1])
+					if subWrites > 0 {
+						order = false
+					}
+				case (strings.HasSuffix(cl.Callee, ").Write") || cl.Callee == "invoke:Write") && len(cl.Args) >= 3 && isSub(cl.Args[0]):
+					subWrites++
+					if !isP(cl.Args[len(cl.Args)-1]) {
+						add("the branch value written is not the pointer Write was given")
+					}
+				case strings.Contains(cl.Callee, "WriteBuf)."):
+					add("Write puts more than a selector on the buffer itself (" + cl.Callee + ")")
+				}
+			}
+			if omit == nil || nOmitCalls != 1 {
+				add("a path through Write is not decided by the branch codec's Omit")
+				continue
+			}
+			ru, isU := omit.Result.(cpUnk)
+			omitted, decided := false, false
+			if isU {
+				omitted, decided = o.Decided[ru.ID]
+			}
+			if !decided {
+				add("a path through Write is not decided by the branch codec's Omit")
+				continue
+			}
+			if len(sels) != 1 {
+				add(fmt.Sprintf("a path writes %d selectors", len(sels)))
+				continue
+			}
+			k, isK := sels[0].(cpInt)
+			if !isK {
+				add("the selector is not an expression over nonNull and constants")
+				continue
+			}
+			if omitted {
+				nOmit++
+				if k.V != 1-nn {
+					add("when the value is omitted the selector written is not the null branch's index 1-nonNull (null is not always branch 0)")
+				}
+				if subWrites != 0 {
+					add("the omitted path also writes a value")
+				}
+			} else {
+				nVal++
+				if k.V != nn {
+					add("the selector written with a value is not the value branch's index nonNull")
+				}
+				if subWrites != 1 {
+					add(fmt.Sprintf("the value path writes %d values", subWrites))
+				}
+				if !order {
+					add("the value is written before its selector")
+				}
+			}
+		}
+	}
+	if nOmit == 0 || nVal == 0 {
+		add("Write lacks an omitted path or a value path")
+	}
+	sort.Strings(problems)
+	return problems, true
 }
